@@ -550,7 +550,7 @@ func FunctionMap() map[string]physical.FunctionDetails {
 								}
 
 								var sb strings.Builder
-								sb.WriteRune('^') // match start
+								sb.WriteString("(?s)^") // match start; (?s) lets _ and % match newlines too
 
 								escaping := false // was the character previously seen an escaping \
 
